@@ -79,6 +79,39 @@ example :
   | 1, h' => cases h'; exact id
   | n + 2, h' => simp at h'
 
+/-- **close_closes_all.** In every reachable state in which the connector has been closed: every connection
+ever created (before or after the close) is closed, nothing is counted in `_acquired` /
+`_acquired_per_host`, the idle pool is empty and no waiter future is queued any more (close cancelled
+every one of them, and nobody can queue on a closed connector). -/
+theorem close_closes_all (limit lph : Nat) (keys : List Key) (ls : List Label) :
+    let s := run Fixes.all (init limit lph keys) ls
+    s.closed = true →
+      (∀ (c : Cid) (x : Conn), s.conns[c]? = some x → x.isOpen = false)
+      ∧ s.acquired = [] ∧ s.perHost = [] ∧ s.idle = [] ∧ s.waitq = [] := by
+  intro s hc
+  have hi := inv_run (inv_init limit lph keys).1 (inv_init limit lph keys).2 ls
+  have ho := oinv_run (inv_init limit lph keys).1 (inv_init limit lph keys).2
+    (oinv_init limit lph keys).1 (oinv_init limit lph keys).2 ls
+  obtain ⟨e1, e2, e3⟩ := hi.1.closed_empty hc
+  refine ⟨?_, e1, e2, e3, ho.2 hc⟩
+  intro c x hx
+  cases hopen : x.isOpen
+  · rfl
+  · exfalso
+    have : connOpen s c = true := by simp [connOpen, hx, hopen]
+    rcases ho.1 c this with h1 | h1
+    · rw [e3] at h1; cases h1
+    · rw [e1] at h1; cases h1
+
+/-- `close_closes_all` is not vacuous: a connector closed with one connection in use, one pooled, one attempt
+in progress (which then succeeds) and one waiter -/
+example :
+    let s := run Fixes.all (init 2 0 [0, 0, 0, 0]) [.spawn 0, .tick, .createDone 0 true, .tick, .release 0 true,
+      .spawn 1, .tick, .spawn 2, .tick, .spawn 3, .tick, .close, .createDone 2 true, .tick, .tick]
+    s.closed = true ∧ s.conns.length = 2 ∧ s.ready = []
+      ∧ s.tasks.map (·.pc) = [.done, .holding 0, .failed .closedErr, .failed .cancelled] := by
+  decide +kernel
+
 /-! ## the code as it is (`Fixes.none`): kernel-checked counterexamples -/
 
 /-- F7 on the model of the code as it is: `limit = 1`, a pooled connection for host 0, a request in
